@@ -1,6 +1,7 @@
 from typing import Dict, List
 
 from excel2pycl.src.cell import Cell
+from excel2pycl.src.exceptions import E2PyclParserException
 
 
 class Context:
@@ -917,6 +918,18 @@ class ExcelInPython:
     def _get_cell_with_cell_preprocessor(cell_function_name: str) -> str:
         return f"self._cell_preprocessor('{cell_function_name}')"
 
+    def check_code(self, code: str) -> str:
+        """
+        The generated class has to load. Code the Python compiler refuses (for instance more than 200 nested brackets
+        for a formula nested a hundred levels deep) is a problem of translating the formula and is reported as such.
+        """
+        try:
+            compile('class _:\n' + self.__build_function('_', code), '<cell>', 'exec')
+        except (SyntaxError, RecursionError, MemoryError, ValueError) as e:
+            raise E2PyclParserException(f'The formula is translated into code that Python cannot compile: {e}') from e
+
+        return code
+
     def get_cell(self, cell: Cell) -> str or None:
         return self._get_cell_with_cell_preprocessor(
             self._get_cell_function_name(cell)) if cell.uid in self._cell_translations else None
@@ -933,7 +946,7 @@ class ExcelInPython:
         if code in self._sub_cell_translations[cell_function_name]:
             sub_number = self._sub_cell_translations[cell_function_name].index(code)
         else:
-            self._sub_cell_translations[cell_function_name].append(code)
+            self._sub_cell_translations[cell_function_name].append(self.check_code(code))
             sub_number = len(self._sub_cell_translations[cell_function_name]) - 1
 
         return self._get_cell_with_cell_preprocessor(self._get_sub_cell_function_name(cell=cell, sub_number=sub_number))
